@@ -80,12 +80,18 @@ ATOMS = {
     "comp_twice": dict(codes=["unused_variable"], lines=["print([None for cv_{n} in range(2)], [None for cv_{n} in range(3)])"], simple=True, fix=True),
     "chained_assign": dict(codes=[], lines=["ca_{n} = cb_{n} = takes_int({n})"], simple=True),
     "pair_codes": dict(codes=[], render="pair", simple=False),
+    "ml_fstring_undef": dict(codes=["undefined_name"], lines=["print(f\"\"\"head {n}", "{{undefined_{n}}}", "tail\"\"\")"], simple=False, raw_continuation=True),
+    # characters that str.splitlines() treats as line ends but Python does not
+    "formfeed_str": dict(codes=["undefined_name"], lines=["ff_{n} = \"a\x0cb\"", "print(ff_{n}, undefined_{n})"], simple=False),
+    "nel_comment": dict(codes=["undefined_name"], lines=["# note \x85 here {n}", "print(undefined_{n})"], simple=False),
+    "ls_str": dict(codes=["undefined_name"], lines=["ls_{n} = \"a\u2028b\x1cc\x0bd\"", "print(ls_{n}, undefined_{n})"], simple=False),
+    "nonascii_before": dict(codes=["undefined_name"], lines=["print(\"h\u00e9llo w\u00f6rld \u4e16\u754c {n}\", undefined_{n})"], simple=True),
     "possibly_undef": dict(codes=["possibly_undefined_name"], lines=["if p:", "    maybe_{n} = {n}", "print(maybe_{n})"], simple=False),
 }
 
 # atoms that hit a recorded, unrepaired defect of pyanalyze (KNOWN_FINDINGS.json); they are
 # generated only when explicitly enabled so that the rest of the search is not drowned
-KNOWN_DEFECT_ATOMS = {"backslash", "with_multi"}
+KNOWN_DEFECT_ATOMS = {"backslash", "with_multi", "ml_fstring_undef"}
 
 SKELETONS = ["plain", "only_stmt_of_if", "for_body", "try_except", "with_block", "one_line_if", "semicolon",
              "method", "nested", "after_comment", "after_decorator", "else_branch", "while_body"]
@@ -233,6 +239,16 @@ class Gen:
             text = "\n".join(lines)
         else:
             text = "\n".join(lines) + "\n"
+        head = r.below(12)
+        if head == 0 and not first_line_def:
+            self.meta["features"].append("encoding_cookie")
+            text = "# -*- coding: utf-8 -*-\n" + text
+        elif head == 1 and not first_line_def:
+            self.meta["features"].append("shebang")
+            text = "#!/usr/bin/env python\n" + text
+        elif head == 2:
+            self.meta["features"].append("bom")
+            text = "\ufeff" + text
         if r.chance(self.opts.get("p_tabs", 0.1)):
             self.meta["features"].append("tabs")
             text = "\n".join(_tabify(l) for l in text.split("\n"))
